@@ -21,7 +21,7 @@ use pretty::RcDoc;
 
 use crate::token::regex_constants;
 
-use super::token::{Comment, WrappedToken};
+use super::token::{Comment, Token, WrappedToken};
 
 // Add brackets
 pub fn add_brackets<'a>(
@@ -123,6 +123,39 @@ pub fn get_comment_after_end<'src>(
     tokens: &mut [WrappedToken<'src>],
 ) -> Option<Comment<'src>> {
     Some(get_token_after_end(span, tokens)?.consume_comment())
+}
+
+/// Get the comment attached to the trailing comma that follows the last
+/// element of a list, record or argument list, if there is one. The formatter
+/// does not print trailing commas, so their comments have to be re-attached to
+/// the preceding element. Returns an empty comment when the next token is not
+/// a comma.
+pub fn get_trailing_comma_comment<'src>(
+    span: Option<miette::SourceSpan>,
+    tokens: &mut [WrappedToken<'src>],
+) -> Option<Comment<'src>> {
+    let token = get_token_after_end(span, tokens)?;
+    if token.token == Token::Comma {
+        Some(token.consume_comment())
+    } else {
+        Some(Comment::default())
+    }
+}
+
+/// Like `get_comment_after_end`, but skips over a trailing comma: get the
+/// comment of the first token after `span` that is not a comma.
+pub fn get_comment_after_end_skipping_comma<'src>(
+    span: Option<miette::SourceSpan>,
+    tokens: &mut [WrappedToken<'src>],
+) -> Option<Comment<'src>> {
+    let end = span.map(|span| span.offset() + span.len())?;
+    match tokens
+        .iter_mut()
+        .find(|t| t.span.start >= end && t.token != Token::Comma)
+    {
+        Some(token) => Some(token.consume_comment()),
+        None => get_comment_after_end(span, tokens),
+    }
 }
 
 pub fn get_comment_in_range<'src>(
